@@ -12,6 +12,8 @@ pub enum POp {
     Close,
     /// whole-server scenarios only: the producer connects now and stays silent until its next push
     Connect,
+    /// whole-server scenarios only: the producer sends the beginning of a request line and nothing more
+    Partial,
 }
 
 #[derive(Clone, Debug)]
@@ -83,6 +85,7 @@ pub fn enc_p(ops: &[POp]) -> String {
             POp::Unblock => "u".to_string(),
             POp::Close => "x".to_string(),
             POp::Connect => "c".to_string(),
+            POp::Partial => "h".to_string(),
         })
         .collect::<Vec<_>>()
         .join(",")
@@ -160,7 +163,7 @@ pub fn run(id: usize, rng: &mut Rng) -> String {
                             sched::log("unblock");
                             q.unblock()
                         }
-                        POp::Close | POp::Connect => {}
+                        POp::Close | POp::Connect | POp::Partial => {}
                     }
                 }
             });
